@@ -77,6 +77,10 @@ Theorem C17_no_dangling : forall K ops s, good K = true -> Reach K s -> bad s = 
 Proof. exact no_dangling. Qed.
 Print Assumptions C17_no_dangling.
 
+Theorem C17_no_dangling_from_start : forall K nt ops, good K = true -> contract K (st0 nt) ops -> bad (mrun K (st0 nt) ops) = false.
+Proof. exact no_dangling_init. Qed.
+Print Assumptions C17_no_dangling_from_start.
+
 (* ------------------------------------------------------------------ (c) sink lifetime (any configuration) *)
 (* use count = user handles + loggers in the registry holding it; a created sink is destroyed iff nothing references it,
    once *)
